@@ -17,6 +17,76 @@ class Program:
         self.ix = Index(root, overrides)
         self._cfgs: Dict[str, CFG] = {}
         self.stats = {"calls": 0, "resolved": 0, "by_name": 0, "external": 0, "unresolved": 0}
+        self._normalise_call_keywords()
+
+    # ---------------------------------------------------------------- normalisation
+    def _normalise_call_keywords(self) -> None:
+        """f(a, y=b) and f(a, b) are the same call when y is f's second parameter.  For calls whose callee resolves
+        inside the package (plain function, self / super method, class with an explicit __init__), keyword arguments
+        that continue the positional sequence are moved into `args`, so that a rule reading `call.args[i]` does not
+        depend on the call-site style.  The moved keywords stay reachable through astutil.kwarg (call._kwmoved)."""
+        ix = self.ix
+        todo = []
+        for fi in list(ix.functions.values()):
+            for c in A.body_nodes(fi.node):
+                if isinstance(c, ast.Call) and (c.keywords or c.args) and not any(isinstance(a, ast.Starred) for a in c.args) and not hasattr(c, "_kwmoved"):
+                    todo.append((fi, c))
+        for fi, c in todo:
+            try:
+                ts, how = self.resolve_callee(fi, c.func)
+            except Exception:
+                continue
+            if how not in ("exact", "cha") or not ts:
+                continue
+            sigs = set()
+            for t in ts:
+                f = t
+                drop_self = False
+                if isinstance(t, ClassInfo):
+                    f = ix.find_method(t, "__init__")
+                    if f is None:
+                        sigs.add(None)
+                        continue
+                    drop_self = True
+                if not isinstance(f, FuncInfo) or isinstance(f.node, ast.Lambda):
+                    sigs.add(None)
+                    continue
+                a = f.node.args
+                if a.posonlyargs or any(_dec(d) in ("staticmethod", "classmethod", "property") for d in f.node.decorator_list) and False:
+                    sigs.add(None)
+                    continue
+                names = [x.arg for x in a.args]
+                is_method = f.cls is not None and not any(_dec(d) == "staticmethod" for d in f.node.decorator_list)
+                if not drop_self and is_method:
+                    recv = c.func.value if isinstance(c.func, ast.Attribute) else None
+                    bound = recv is not None and ((isinstance(recv, ast.Name) and recv.id in ("self", "cls")) or
+                                                  (isinstance(recv, ast.Call) and isinstance(recv.func, ast.Name) and recv.func.id == "super"))
+                    if not bound:
+                        sigs.add(None)
+                        continue
+                    drop_self = True
+                if drop_self:
+                    names = names[1:]
+                sigs.add(tuple(names))
+            if len(sigs) != 1 or None in sigs:
+                continue
+            names = list(next(iter(sigs)))
+            moved = {}
+            while len(c.args) < len(names):
+                nm = names[len(c.args)]
+                kw = [k for k in c.keywords if k.arg == nm]
+                if len(kw) != 1:
+                    break
+                c.keywords.remove(kw[0])
+                c.args.append(kw[0].value)
+                ix._parents[id(kw[0].value)] = c
+                moved[nm] = kw[0].value
+            # every positional argument is also reachable by its parameter name (astutil.kwarg): a rule that
+            # asks for `include=` finds it whether the call site wrote it as a keyword or not
+            for i, a_ in enumerate(c.args[:len(names)]):
+                moved.setdefault(names[i], a_)
+            if moved:
+                c._kwmoved = moved
 
     # ---------------------------------------------------------------- basics
     def cfg(self, fi: FuncInfo) -> CFG:
@@ -313,6 +383,12 @@ class Program:
             seen.add(q)
             st.extend(g.get(q, ()))
         return seen
+
+
+def _dec(d: ast.expr) -> str:
+    if isinstance(d, ast.Call):
+        d = d.func
+    return d.attr if isinstance(d, ast.Attribute) else d.id if isinstance(d, ast.Name) else ""
 
 
 class _Wrapped:
